@@ -173,6 +173,15 @@ class PeriodicRun:
             self.cb_log.append((j, sensor, time, list(data), data))
             if j == 0:
                 self.keep(data, time, 'callback 0')
+            if j == 0 and self.case.get('cb_touches_queue') and self.case['kind'] == 'periodic':
+                # user code that tidies up the sensor's pending events from inside the measurement: there are none at
+                # this moment (the next measurement is scheduled when this one is complete), so nothing changes
+                if self.case['cb_touches_queue'] == 'cancel':
+                    self.env.cancel_matching_events(asset_id=sensor.id)
+                else:
+                    self.env.pause_matching_events(asset_id=sensor.id)
+                    self.env.unpause_matching_events(asset_id=sensor.id)
+                self.sh.count('callbacks_that_touched_their_sensors_events')
             lens = sorted({len(v) for v in sensor.data.values()})
             cap = self.case['capacity']
             if cap is not None and lens and lens[-1] > cap and not self.failed:
@@ -218,6 +227,14 @@ class PeriodicRun:
                     self.add_cb()
                     self.sh.count('callbacks_registered_after_measurements' if self.count else
                                   'callbacks_registered_mid_run_before_any_measurement')
+            elif kind == 'cms_again':
+                # the sensors a Cms already watches are added to it once more while the run is under way (an idempotent
+                # set-up routine called again): nothing may change
+                if self.sensor is not None and self.cms is not None:
+                    self.cms.add_sensor(self.sensor)
+                    for c in self.more_cms:
+                        c.add_sensor(self.sensor)
+                    self.sh.count('sensors_added_again_to_their_cms')
             elif kind == 'add_cms':
                 if self.sensor is not None:
                     self.add_cms()
@@ -358,6 +375,9 @@ class PeriodicRun:
                         for what in case['between']:
                             (self.add_cb if what == 'cb' else self.add_cms)()
                             self.sh.count('consumers_registered_between_runs')
+                        if self.cms is not None:
+                            self.cms.add_sensor(self.sensor)
+                            self.sh.count('sensors_added_again_to_their_cms')
             except Exception as e:
                 import traceback
                 self.fail('crash', f'{type(e).__name__}: {e} {traceback.format_exc()[-1000:]}')
@@ -574,10 +594,13 @@ def gen_periodic(rng, tie):
             t = rng.random() * horizon
             if rng.random() < 0.4:
                 t = interval * rng.randint(1, samples)
-            script.append([t, rng.choice([2, 3.5, 5, 10]), [rng.choice(['add_cb', 'add_cb', 'add_cms'])]])
+            script.append([t, rng.choice([2, 3.5, 5, 10]), [rng.choice(['add_cb', 'add_cb', 'add_cms', 'cms_again'])]])
     script = [s for s in script if s[0] <= sum(hs)]
     script.sort(key=lambda e: e[0])
-    return {'engine': 'sensor', 'cms2': rng.random() < 0.3,
+    touch = None
+    if len(script) % 7 == 3:
+        touch = 'cancel' if len(script) % 2 else 'pause'          # (no draw from the stream)
+    return {'engine': 'sensor', 'cb_touches_queue': touch, 'cms2': rng.random() < 0.3,
             'between': [rng.choice(['cb', 'cms']) for _ in range(rng.choice([0, 0, 1, 2]))], 'kind': kind, 'interval': interval,
             'probe_kinds': [rng.choice(['attr', 'attr', 'func', 'missing']) for _ in range(nprobes)],
             'initial': [rng.choice(VALUES) for _ in range(nprobes)],
